@@ -881,28 +881,90 @@ func alwaysSetsHadError(c *Ctx, f *ssa.Function, depth int) bool {
 
 // errorStatusWrite: instruction writes an HTTP status; returns (isError, ok).
 func errorStatusWrite(in ssa.Instruction) (bool, bool) {
-	cc := getCall(in)
-	if cc == nil {
-		return false, false
-	}
-	ci := describeCall(cc)
-	var statusArg ssa.Value
-	switch {
-	case ci.Pkg == "net/http" && ci.Name == "Error" && ci.Recv == "" && len(cc.Args) == 3:
-		statusArg = cc.Args[2]
-	case cc.IsInvoke() && ci.Name == "WriteHeader" && len(cc.Args) == 1:
-		statusArg = cc.Args[0]
-	case cc.IsInvoke() && ci.Name == "WriteError" && len(cc.Args) == 3:
-		statusArg = cc.Args[2]
-	case ci.Name == "writeTranslatorError" && len(cc.Args) >= 1:
-		statusArg = cc.Args[len(cc.Args)-1]
-	default:
+	statusArg := statusOperand(in)
+	if statusArg == nil {
 		return false, false
 	}
 	if k, ok := constInt(statusArg); ok {
 		return k >= 400, true
 	}
 	return true, true // non-constant status on an error helper: treat as potentially an error
+}
+
+// statusOperand: the HTTP status operand of a status-writing call (http.Error, WriteHeader, ErrorWriter.WriteError,
+// writeTranslatorError), or nil.
+func statusOperand(in ssa.Instruction) ssa.Value {
+	cc := getCall(in)
+	if cc == nil {
+		return nil
+	}
+	ci := describeCall(cc)
+	switch {
+	case ci.Pkg == "net/http" && ci.Name == "Error" && ci.Recv == "" && len(cc.Args) == 3:
+		return cc.Args[2]
+	case cc.IsInvoke() && ci.Name == "WriteHeader" && len(cc.Args) == 1:
+		return cc.Args[0]
+	case cc.IsInvoke() && ci.Name == "WriteError" && len(cc.Args) == 3:
+		return cc.Args[2]
+	case ci.Name == "writeTranslatorError" && len(cc.Args) >= 1:
+		return cc.Args[len(cc.Args)-1]
+	}
+	return nil
+}
+
+// provablyErrorStatus: v is a constant >= 400, a phi of such, or a parameter that every static caller feeds with such.
+func provablyErrorStatus(c *Ctx, v ssa.Value, depth int) bool {
+	if v == nil || depth == 0 {
+		return false
+	}
+	if k, ok := constInt(v); ok {
+		return k >= 400
+	}
+	switch x := v.(type) {
+	case *ssa.Phi:
+		for _, e := range x.Edges {
+			if !provablyErrorStatus(c, e, depth-1) {
+				return false
+			}
+		}
+		return len(x.Edges) > 0
+	case *ssa.Call:
+		// a repo helper all of whose returns are error statuses
+		if sc := x.Call.StaticCallee(); sc != nil && c.inRepo(sc) && sc.Signature.Results().Len() == 1 {
+			rets := returnsOf(sc)
+			for _, ret := range rets {
+				if !provablyErrorStatus(c, retResult(ret, 0), depth-1) {
+					return false
+				}
+			}
+			return len(rets) > 0
+		}
+	case *ssa.Parameter:
+		fn := x.Parent()
+		idx := -1
+		for i, p := range fn.Params {
+			if p == x {
+				idx = i
+			}
+		}
+		n := 0
+		for _, f := range c.Funcs {
+			bad := false
+			eachInstr(f, func(in ssa.Instruction) {
+				if cc := getCall(in); cc != nil && cc.StaticCallee() == fn && idx < len(cc.Args) {
+					n++
+					if !provablyErrorStatus(c, cc.Args[idx], depth-1) {
+						bad = true
+					}
+				}
+			})
+			if bad {
+				return false
+			}
+		}
+		return n > 0
+	}
+	return false
 }
 
 func reachedFromTranslation(c *Ctx, f *ssa.Function) bool {
